@@ -113,6 +113,12 @@ var (
 	qcMiss   int
 )
 
+func qcacheLen() int {
+	qcacheMu.RLock()
+	defer qcacheMu.RUnlock()
+	return len(qcache)
+}
+
 // canon renders conj with variables renamed in order of first occurrence; returns "" if too large.
 func canon(conj []*Term, limit int) (string, []*Term) {
 	var sb strings.Builder
@@ -213,7 +219,7 @@ func (w *Worker) query(extra ...*Term) (Verdict, Model) {
 	}
 	if !hit {
 		verdict, vals = w.S.Solve(conj, vars)
-		if key != "" && verdict != Unknown {
+		if key != "" && verdict != Unknown && len(key) <= 4096 && qcacheLen() < 400000 {
 			ce := cacheEntry{v: verdict}
 			if verdict == Sat {
 				ce.vals = make([]uint64, len(order))
